@@ -297,9 +297,13 @@ def eval_case_inner(ctx, exe, case, status_of, deep=True):
                 cause = "tied-exchanger-rederived"
             elif selD is not None and cells_differ(selA, selD) is None:
                 cause = "raw-text-14-digits"          # an exact copy in an equally fresh engine reproduces the original
-            elif selD is not None and cells_differ(selB, selD) is None:
-                if "B2" in tab and tab["B2"][0][0] == 0 and cells_differ(selA, tab["B2"][1]) is None:
-                    cause = "gas-phase-first-step-lag"  # restored + the original's phase::pr_si_f reproduces the original
+            elif selD is not None and cells_differ(selB, selD) is None and gas:
+                # an exact copy of the entities in a fresh engine behaves like the restored instance: the dump is complete, the
+                # ORIGINAL's result depends on what its engine keeps from the previous calculation (phase::pr_si_f, cached unknowns),
+                # which the 0.001 atm absolute pressure test of the gas-phase solver does not iterate out
+                cause = "gas-phase-first-step-lag"
+                inj = "B2" in tab and tab["B2"][0][0] == 0 and cells_differ(selA, tab["B2"][1]) is None
+                res["notes"].append("restored + original's phase::pr_si_f reproduces the original: " + ("yes" if inj else "no"))
         for t in ("B", "D", "E", "M"):
             if t not in tab:
                 continue
